@@ -11,6 +11,8 @@ import (
 
 // C16(b): the wiring of the one-minute cleanup in the running processor,
 // decided under the virtual clock.
+var busySeq int
+
 func runC16b(t *testing.T, run *mc.Run) int {
 	phases := []time.Duration{1 * time.Second, 30 * time.Second, 59 * time.Second}
 	gaps := []time.Duration{0, time.Second, 59 * time.Second, 121 * time.Second, 180 * time.Second, 600 * time.Second}
@@ -20,12 +22,13 @@ func runC16b(t *testing.T, run *mc.Run) int {
 	}
 	n, dropped := 0, 0
 	var samples []any
-	for _, first := range []string{"login", "session"} {
+	for _, first := range []string{"login", "session", "busy-session"} {
 		for _, ph := range phases {
 			for _, gap := range gaps {
 				n++
 				var msg string
 				var nout int
+				extra := 0
 				bubble(t, func() {
 					r := startRead(0)
 					defer r.stop()
@@ -43,7 +46,24 @@ func runC16b(t *testing.T, run *mc.Run) int {
 							r.offerLine(l + "\n")
 						}
 					}
-					vsleep(gap)
+					if first == "busy-session" {
+						// the waiting session keeps producing an event every 20 s: traffic must not keep it alive
+						for slept := time.Duration(0); slept < gap; {
+							step := 20 * time.Second
+							if gap-slept < step {
+								step = gap - slept
+							}
+							vsleep(step)
+							slept += step
+							if slept < gap {
+								busySeq++
+								r.offerLine(auditgen.Simple("USER_ACCT", 1700000060+int64(busySeq%30), 3100+busySeq, "7", "4242", "success").Recs[0].Line + "\n")
+								extra++
+							}
+						}
+					} else {
+						vsleep(gap)
+					}
 					lg2 := lg
 					if first == "login" {
 						for _, l := range sessLines {
@@ -64,7 +84,7 @@ func runC16b(t *testing.T, run *mc.Run) int {
 						return
 					}
 					switch {
-					case gap < 60*time.Second && nout != 5:
+					case gap < 60*time.Second && nout != 5+extra:
 						msg = fmt.Sprintf("halves %v apart (first half %v after start): %d of the session's 5 events were emitted; within a minute they must be correlated", gap, ph, nout)
 					case gap > 120*time.Second && nout != 0:
 						msg = fmt.Sprintf("halves %v apart: %d events were emitted; more than two minutes apart nothing may be (held events are dropped, not emitted late)", gap, nout)
@@ -84,7 +104,7 @@ func runC16b(t *testing.T, run *mc.Run) int {
 		}
 	}
 	cov := mc.Coverage{Level: "model_checking", States: n, Transitions: n * 8, Traces: n, Evaluations: n, Distinct: dropped, Exhaustive: true, Samples: samples,
-		Rule:  "the real Auditd.Read under testing/synctest's virtual clock: first half in {login, LOGIN record + 2 events} x phase of its arrival within the cleanup period x gap to the second half, then two probe events; gap < 60 s must correlate (5 events), gap > 120 s must emit nothing ever; 60..120 s unjudged. distinct_nontrivial = cells in which the pending half must have been discarded",
+		Rule:  "the real Auditd.Read under testing/synctest's virtual clock: first half in {login, LOGIN record + 2 events, the same session producing a further event every 20 s} x phase of its arrival within the cleanup period x gap to the second half, then two probe events; gap < 60 s must correlate (5 events), gap > 120 s must emit nothing ever; 60..120 s unjudged. distinct_nontrivial = cells in which the pending half must have been discarded",
 		Extra: map[string]any{"phases_s": len(phases), "gaps": len(gaps)}}
 	cov.Assumptions = []string{"virtual clock of testing/synctest"}
 	return run.Finish(cov)
